@@ -44,6 +44,14 @@ def f_c(idx, *args):
     return _body(idx, args)
 
 
+def make_twin(k):
+    """distinct function objects sharing one qualified name (closures of one factory)"""
+    def twin(idx, *args):
+        return _body(idx, args)
+    return twin
+
+
+TWINS = [make_twin(k) for k in range(3)]
 FN_NAMES = {}
 
 
@@ -120,7 +128,7 @@ SCOPE_VALUES = ["s1", "s2", 3, ("t", 1), "deep.name", None]
 def gen_case(rng, uberjob, Recorder, MemA, MemB, case_id):
     plan = uberjob.Plan()
     registry = uberjob.Registry() if rng.random() < 0.6 else None
-    fns = [f_a, f_b, f_c]
+    fns = [f_a, f_b, f_c] + TWINS
     nodes, meta, stores = [], {}, []
     sid = [0]
 
@@ -324,7 +332,7 @@ def _run(ctx, uberjob, Recorder, MemA, MemB, fqn, graphs, Call):
         replay = {"case": ci, "seed": ctx.seed, "n_calls": case["n"], "n_sources": case["n_src"], "kw": {k: (v if not callable(v) else "callable") for k, v in case["kw"].items()},
                   "fail_calls": sorted(case["fail_calls"]), "store_fail": case["store_fail"], "members": case["m"], "style": case["style"],
                   "enter_raises": case["raises"], "output": "None" if case["output"] is None else ("node" if not isinstance(case["output"], list) else "list[%d]" % len(case["output"])),
-                  "scopes": {str(i): [repr(x) for x in case["meta"][i][1]] + [case["meta"][i][2].__name__] for i in case["meta"]}}
+                  "scopes": {str(i): [repr(x) for x in case["meta"][i][1]] + [case["meta"][i][2].__qualname__] for i in case["meta"]}}
         m = case["m"]
         views = {i: [(e[2], e[3], e[4]) for e in log if e[0] == "note" and e[1] == i] for i in range(m)}
         mevs = [e for e in log if e[0] in ("menter", "menter_raised", "mexit")]
@@ -509,7 +517,7 @@ def _run(ctx, uberjob, Recorder, MemA, MemB, fqn, graphs, Call):
             i = node_idx.get(id(n))
             if i is not None:
                 _, sc, fn = case["meta"][i]
-                exp_run[("run", tuple(sc) + ("%s.%s" % (__name__, fn.__name__),))] += 1
+                exp_run[("run", tuple(sc) + ("%s.%s" % (__name__, fn.__qualname__),))] += 1
             else:
                 exp_run[("run", tuple(n.scope) + (fqn(n.fn),))] += 1
         if outcome == "ok" and not dry:
@@ -523,7 +531,7 @@ def _run(ctx, uberjob, Recorder, MemA, MemB, fqn, graphs, Call):
                 for n, c in eng[0]:
                     if c == 0 and type(n) is Call:
                         i = node_idx.get(id(n))
-                        base = (tuple(case["meta"][i][1]) + ("%s.%s" % (__name__, case["meta"][i][2].__name__),)) if i is not None else tuple(n.scope) + (fqn(n.fn),)
+                        base = (tuple(case["meta"][i][1]) + ("%s.%s" % (__name__, case["meta"][i][2].__qualname__),)) if i is not None else tuple(n.scope) + (fqn(n.fn),)
                         st = reg.get(n)
                         exp_stale[("stale", base + ((("%s.%s" % (__name__, type(st).__qualname__)),) if st is not None else ()))] += 1
                 got_stale = collections.Counter({k: v for k, v in tot.items() if k[0] == "stale"})
